@@ -1282,6 +1282,17 @@ class ModelBuilder:
                     self._create_scenario(project, value)
                 elif key == "extend":
                     pass  # Handle extensions later
+                elif key == "workinghours":
+                    # Project-wide working hours: the calendar of every resource
+                    # that has no hours of its own (several lines add up)
+                    from scriptplan.core.working_hours import WorkingHours
+
+                    declared = project.attributes.get("workinghours")
+                    if not hasattr(declared, "set_hours"):
+                        declared = WorkingHours(project)
+                        project.attributes["workinghours"] = declared
+                    if isinstance(value, dict):
+                        declared.set_hours(value.get("days", []), value.get("ranges", []))
                 else:
                     with contextlib.suppress(ValueError, KeyError):
                         project[key] = value
